@@ -290,7 +290,7 @@ func RunChild(p *Prop, cfg *Config) int {
 		// schedule (one case alone cannot reproduce a first-use interleaving).
 		var par []int
 		for fi := range fams {
-			if !fams[fi].Serial && fams[fi].N > 0 {
+			if !fams[fi].Serial && fams[fi].N > 0 && !fams[fi].NoCold {
 				par = append(par, fi)
 			}
 		}
@@ -299,7 +299,8 @@ func RunChild(p *Prop, cfg *Config) int {
 			// every worker's first case comes from the SAME family (another one in each variant), so that all of
 			// them enter the same functions for the first time together
 			first := par[cold%len(par)]
-			for i := 0; i < nw; i++ {
+			// (never the same case twice: a family of one 1 GiB case must not run 16 times at once)
+			for i := 0; i < nw && i < fams[first].N; i++ {
 				jobs = append(jobs, job{first, ((cold/len(par))*nw + i) % fams[first].N})
 			}
 			rounds := 3*nw/len(par) + 2
